@@ -11,6 +11,10 @@ CHECKS = {
    text="Layer B (ServerImpl.tla: one action per await-to-await segment of create_service / the receive loop / the cleanup task, lock, turn queue, durable record) is model-checked exhaustively for 2x2 and 3x1 connections x requests against Serialised, NoRollback, WriteOnce, AckDurable, SnapFresh and (under fairness) EventuallyServed; the pre-fix model ServerImplOld must violate each clause (sensitivity). TLC-generated schedules of external events for up to 3 connections (exhaustive at small bounds, -simulate with explicit loop iterations) are executed on the real ServicesManager over a fake websocket; every reply, server closure and external event is logged in true order with the projected durable record and validated by TLC against Trace_Overlap (Layer A), ending with a restart + probe connection.",
    ref="5/C12", note="stock asyncio loop with harness-injected iterations; fake websocket; cleanup delay is a gate; Layer B assumes asyncio ordering fact (A1) stated in the spec",
    technique="TLA+ implementation-shaped model checked by TLC; TLC-generated schedules replayed on the real stack; TLC trace validation against Layer A"),
+ "C13": dict(level="model_checking",
+   text="Layer B (Persist.tla, PersistClient.tla: each persisting handler as its sequence of file-system operations, the loaders, a kill between any two operations with the three outcomes of a file open for writing, a retrying operator) is model-checked for Usable, MetaNeverTorn, ReportedDurable and, under fairness, Reaches(done); the pre-fix variant must violate Usable. The FS-operation log recorded from each real handler must equal the model's program (else DRIFT). Every crash point (component, handler, operation k, before/after, resolution) is then executed on the real client and server with file-system interposition, the component restarted on the same directory, the workflow continued, and the run validated by TLC against Trace_CrashRecovery (Layer A over ClientSM: step happened fully or not at all, handshake succeeds and reports that state, retried steps accepted, final searches correct).",
+   ref="5/C13", note="process death emulated in-process (BaseException at the operation, later mutations refused, open files left empty/half/full); buffered writers reach the disk at close; loopback websocket; PiBas default configuration",
+   technique="TLA+ crash model checked by TLC; exhaustive crash-point enumeration on the real handlers; TLC trace validation"),
 }
 ALL = ["C%02d" % i for i in range(1, 21)]
 def main():
